@@ -264,9 +264,7 @@ def run_pool_case(case, forced, mode):
     sch = S.Sched(len(programs), forced)
     clock = VClock()
 
-    _PT = clock.module_shim()
-    saved = poolmod.time
-    poolmod.time = _PT
+    restore_clock = clock.patch_module(poolmod)
     removed = {}
     created = []
 
@@ -297,7 +295,7 @@ def run_pool_case(case, forced, mode):
         log = []
         ok = sch.run([make_pool_program(pool, mon, ops, log, clock) for ops in programs])
     finally:
-        poolmod.time = saved
+        restore_clock()
     viol = list(mon.viol) + early
     if sch.deadlock:
         viol.append(("deadlock", sch.deadlock))
